@@ -132,7 +132,7 @@ fn c12_transfer() {
     if from == to {
         kani::assert(bal(&from) == bf, "VERIF:C12:self-transfer leaves the balance");
     } else {
-        kani::assert(bal(&from) == bf - amount && bal(&to) == bt + amount, "VERIF:C12:transfer moves exactly the amount between the two balances");
+        kani::assert(bf.checked_sub(amount) == Some(bal(&from)) && bt.checked_add(amount) == Some(bal(&to)), "VERIF:C12:transfer moves exactly the amount between the two balances (never wrapped or clamped)");
     }
     kani::assert(s.others_unchanged(&from, &to), "VERIF:C12:no other balance changes");
     kani::assert(s.one_event(model::topics_of(&(symbol_short!("transfer"), from.clone(), to.clone())), model::val_of(&amount)), "VERIF:C12:one transfer event naming sender, recipient and amount");
@@ -159,11 +159,11 @@ fn c12_transfer_from() {
     if from == to {
         kani::assert(bal(&from) == bf, "VERIF:C12:self-transfer leaves the balance");
     } else {
-        kani::assert(bal(&from) == bf - amount && bal(&to) == bt + amount, "VERIF:C12:transfer moves exactly the amount between the two balances");
+        kani::assert(bf.checked_sub(amount) == Some(bal(&from)) && bt.checked_add(amount) == Some(bal(&to)), "VERIF:C12:transfer moves exactly the amount between the two balances (never wrapped or clamped)");
     }
     kani::assert(s.others_unchanged(&from, &to), "VERIF:C12:no other balance changes");
     if amount > 0 {
-        kani::assert(s.stored_allowance(&from, &spender) == Some(model::val_of(&AllowanceValue { amount: al - amount, expiration_ledger: s.al_exp })), "VERIF:C12:allowance is reduced by exactly the amount spent, expiration kept");
+        kani::assert(s.stored_allowance(&from, &spender) == Some(model::val_of(&AllowanceValue { amount: al.wrapping_sub(amount), expiration_ledger: s.al_exp })), "VERIF:C12:allowance is reduced by exactly the amount spent, expiration kept");
     }
     kani::assert(s.one_event(model::topics_of(&(symbol_short!("transfer"), from.clone(), to.clone())), model::val_of(&amount)), "VERIF:C12:one transfer event naming owner, recipient and amount");
     kani::cover!(amount > 0 && s.al_exp == s.seq, "VERIF:reach:allowance used on its expiration ledger");
@@ -180,7 +180,7 @@ fn c12_burn() {
     let bf = s.b[s.idx(&from)];
     kani::assert(model::auth_of(&from), "VERIF:C07:burn needs the holder's authorisation");
     kani::assert(amount >= 0 && bf >= amount, "VERIF:C12:burn of a negative amount or beyond the balance is rejected");
-    kani::assert(bal(&from) == bf - amount && s.others_unchanged(&from, &from), "VERIF:C12:burn reduces exactly one balance (and the supply) by the amount");
+    kani::assert(bf.checked_sub(amount) == Some(bal(&from)) && s.others_unchanged(&from, &from), "VERIF:C12:burn reduces exactly one balance (and the supply) by the amount");
     kani::assert(s.one_event(model::topics_of(&(symbol_short!("burn"), from.clone())), model::val_of(&amount)), "VERIF:C12:one burn event");
     kani::cover!(amount > 0, "VERIF:reach:burn");
 }
@@ -197,9 +197,9 @@ fn c12_burn_from() {
     let al = s.allowance(&from, &spender);
     kani::assert(model::auth_of(&spender), "VERIF:C07:delegated burn needs the spender's authorisation");
     kani::assert(amount >= 0 && al >= amount && bf >= amount, "VERIF:C12,C07:delegated burn beyond the holder's live allowance or balance is rejected");
-    kani::assert(bal(&from) == bf - amount && s.others_unchanged(&from, &from), "VERIF:C12:burn reduces exactly one balance (and the supply) by the amount");
+    kani::assert(bf.checked_sub(amount) == Some(bal(&from)) && s.others_unchanged(&from, &from), "VERIF:C12:burn reduces exactly one balance (and the supply) by the amount");
     if amount > 0 {
-        kani::assert(s.stored_allowance(&from, &spender) == Some(model::val_of(&AllowanceValue { amount: al - amount, expiration_ledger: s.al_exp })), "VERIF:C12:allowance is reduced by exactly the amount burnt");
+        kani::assert(s.stored_allowance(&from, &spender) == Some(model::val_of(&AllowanceValue { amount: al.wrapping_sub(amount), expiration_ledger: s.al_exp })), "VERIF:C12:allowance is reduced by exactly the amount burnt");
     }
     kani::assert(s.one_event(model::topics_of(&(symbol_short!("burn"), from.clone())), model::val_of(&amount)), "VERIF:C12:one burn event");
     kani::cover!(amount > 0 && s.al_exp == s.seq, "VERIF:reach:delegated burn on the expiration ledger");
@@ -262,7 +262,7 @@ fn c12_mint_from() {
     kani::assert(model::auth_of(&minter), "VERIF:C07,C06,C12:minting needs the minter's own authorisation (for `mint`: the current owner's)");
     kani::assert(was_minter, "VERIF:C12:only current minters can mint");
     kani::assert(amount >= 0, "VERIF:C12:negative amounts are rejected");
-    kani::assert(bal(&to) == bt + amount && s.others_unchanged(&to, &to), "VERIF:C12:mint increases exactly one balance (and the supply) by the amount");
+    kani::assert(bt.checked_add(amount) == Some(bal(&to)) && s.others_unchanged(&to, &to), "VERIF:C12:mint increases exactly one balance (and the supply) by the amount (never wrapped or clamped)");
     kani::assert(s.one_event(model::topics_of(&(symbol_short!("mint"), minter.clone(), to.clone())), model::val_of(&amount)), "VERIF:C12:one mint event naming minter and recipient");
     kani::cover!(via_owner && amount > 0, "VERIF:reach:owner mint");
     kani::cover!(!via_owner && amount > 0 && minter != s.owner, "VERIF:reach:minter mint");
@@ -338,6 +338,36 @@ fn c11_token_constructor() {
     kani::assert(is_minter(&probe) == (probe == owner || (has_minter && probe == m)), "VERIF:C11:minting rights go to the owner and the designated minter only");
     kani::assert(bal(&Address(1)) == 0 && bal(&Address(2)) == 0 && bal(&Address(3)) == 0, "VERIF:C11:a new token has no balances");
     kani::cover!(has_minter && m != owner, "VERIF:reach:constructed with a third-party minter");
+}
+
+// HARNESS props=C11,C12 tier=quick profile=tok mode=strict shape="constructor with representable metadata and ANY owner / optional minter (equal or not), then every query — nothing may trap: a token that was created answers for its id, owner, metadata and minters"
+#[kani::proof]
+fn c11_token_constructor_strict() {
+    let env = Env::default();
+    let owner = any::address(4);
+    let has_minter: bool = kani::any();
+    let m = any::address(4);
+    let minter = if has_minter { Some(m.clone()) } else { None };
+    let id = any::b32(2);
+    let md = TokenMetadata { decimal: kani::any(), name: any::string(2), symbol: any::string(2) };
+    kani::assume(md.decimal <= 255 && md.name.len > 0 && md.symbol.len > 0);
+    model::with_contract(&tok(), || InterchainToken::__constructor(env.clone(), owner.clone(), minter.clone(), id.clone(), md.clone()));
+    let probe = any::address(4);
+    let (o, tid, dec, nm, sy, im, b) = model::with_contract(&tok(), || {
+        (
+            InterchainToken::owner(&env),
+            InterchainToken::token_id(&env),
+            InterchainToken::decimals(env.clone()),
+            InterchainToken::name(env.clone()),
+            InterchainToken::symbol(env.clone()),
+            InterchainToken::is_minter(&env, probe.clone()),
+            InterchainToken::balance(env.clone(), probe.clone()),
+        )
+    });
+    kani::assert(o == owner && tid == id && dec == md.decimal && nm == md.name && sy == md.symbol, "VERIF:C11:the token reports the owner, id and metadata it was created with");
+    kani::assert(im == (probe == owner || (has_minter && probe == m)) && b == 0, "VERIF:C11:minting rights go to the owner and the designated minter only; no balances");
+    kani::cover!(has_minter && m == owner, "VERIF:reach:constructed with the owner as designated minter");
+    kani::cover!(has_minter && m != owner, "VERIF:reach:constructed with a third-party minter (strict)");
 }
 
 // HARNESS props=C12 tier=quick profile=tok mode=strict shape="delegated transfer that the rules allow (live allowance incl. the expiration ledger itself, sufficient balance, no overflow) must succeed without any trap"
